@@ -129,6 +129,38 @@ prop('C26',
      level_text='Bounded model checking of the gas kernel at full 64-bit width; per-instruction charges are asserted inside the instruction-step harnesses of C21/C25 with a symbolic schedule.',
      level_note='Trusted: Kani/CBMC/cadical, split_registers model.')
 
+FS = ['--max-field-sensitivity-array-size', '512']
+
+prop('C09',
+     builds=[dict(crate='ext', filters=['c09_'])],
+     default=dict(mem=8, timeout={'quick': 600, 'thorough': 1800}, cbmc_extra=FS),
+     min_harnesses={'quick': 5, 'thorough': 5},
+     functions_encoded=['fuel_merkle::binary::root_calculator::MerkleRootCalculator::{new,push,push_with_callback,root,new_from_existing_leaves}',
+                        'fuel_merkle::binary::MerkleTree::{new,push,root,root_node,leaves_count}', 'fuel_merkle::binary::node::Node::*', 'fuel_merkle::common::position::Position::*'],
+     bounds=['leaf counts as listed per harness (n is a harness constant), 2 symbolic bytes per leaf'],
+     assumptions=[TOY_NOTE],
+     out_of_claim=['SHA-256 itself'],
+     level_text='Bounded model checking of tree construction for concrete small leaf counts with symbolic leaf data against the RFC 6962 tree hash definition.',
+     level_note='Trusted: Kani/CBMC/cadical; TOY hash parametricity.')
+
+prop('C10',
+     builds=[dict(crate='ext', filters=['c10_'])],
+     default=dict(mem=8, timeout={'quick': 600, 'thorough': 3000}, cbmc_extra=FS, unwindset=['memcmp.0:34']),
+     overrides=[(r'_l[45]$', dict(tier='thorough', mem=28)),
+                (r'c10_sound_c\d+_l3$|c10_reject_c(3_l3|9_l3)$', dict(tier='rotate')),
+                (r'c10_complete_n4$', dict(tier='rotate')),
+                (r'c10_complete_n[567]$', dict(tier='thorough', mem=16))],
+     rotate_pick=2,
+     min_harnesses={'quick': 24, 'thorough': 40},
+     functions_encoded=['fuel_merkle::binary::verify::{verify, path_length_from_key}', 'fuel_merkle::binary::MerkleTree::{push, root, prove, root_node}',
+                        'fuel_merkle::common::position::Position::*', 'fuel_merkle::common::path_iterator::*', 'fuel_merkle::common::position_path::*'],
+     bounds=['soundness: (count, proof length) grid listed by harness name (count up to 17, length up to 5); root, 2-byte data, all proof entries and index:u64 symbolic with no relation assumed',
+             'completeness: trees of 1..7 leaves (2 symbolic bytes each), every index, plus refusal at n, n+1, u64::MAX'],
+     assumptions=[TOY_NOTE],
+     out_of_claim=['count > 17, trees with more than 7 leaves', 'SHA-256 itself'],
+     level_text='Verifier decided equal to the RFC 6962 audit-path recomputation for all symbolic tuples on a grid of (count, length) shapes; prover decided complete on all trees up to 7 leaves.',
+     level_note='Trusted: Kani/CBMC/cadical; TOY hash parametricity.')
+
 # ---------------------------------------------------------------------------------------
 def opts_for(pid, h, tier):
     spec = PROPS[pid]
